@@ -25,6 +25,7 @@ type lgEntry struct {
 	Decides  []string // atoms the path must have branched on
 	OrStep   string   // alternatively, a statement containing this text occurs earlier on the path
 	NotAfter string   // paths on which a statement containing this text occurs are not instances (error exits)
+	MustStep string   // a statement containing this text must occur earlier on the path
 	Props    []string
 	Why      string
 }
@@ -54,6 +55,11 @@ var lgTable = []lgEntry{
 	{Rule: "LB", Func: "tensor.(StdEng).Outer", Site: "whichblas.", Decides: []string{"%pd.DataOrder().IsColMajor()"}, Props: []string{"C09", "C16"}, Why: "the result's data order decides the operand order of the rank-1 update"},
 	{Rule: "L1", Func: "tensor.(StdEng).MatMul", Site: "whichblas.", Decides: []string{"%ad.RequiresIterator()", "%bd.RequiresIterator()"}, Props: []string{"C09"}, Why: "a sliced operand's window is not the matrix BLAS is told about"},
 	{Rule: "L1", Func: "tensor.(StdEng).MatVecMul", Site: "whichblas.", Decides: []string{"%ad.RequiresIterator()", "%bd.RequiresIterator()"}, Props: []string{"C09"}, Why: "a sliced operand's window is not the matrix BLAS is told about"},
+	// ---- transposition shortcuts (C03) and destination normalisation (C09, C07) ----------------------
+	{Rule: "L1", Func: "tensor.(*Dense).T", Site: "$r.UT()", Goal: "(!$r.old.IsZero() && ($r.IsVector() || %isReversed))", Props: []string{"C03"}, Why: "a second lazy transpose may be answered by an untranspose only for a true vector or when the requested pattern is the saved one"},
+	{Rule: "L1", Func: "tensor.reuseCheckShape", Site: "return nil", MustStep: "$reuse.reshape(", Decides: []string{"$reuse.oldAP().IsZero()", "($reuse.transposeAxes() == nil)", "($reuse.parentTensor() == nil)"}, Props: []string{"C09", "C07"}, Why: "a reuse destination is normalised (reshaped to default strides, pending transpose and view marker dropped) on every accepting path, whatever its current shape"},
+	// ---- axis selection of the stacking shorthands (C10) -----------------------------------------------
+	{Rule: "L1", Func: "tensor.(*Dense).Hstack", Site: "$r.Concat(0,", Goal: "($r.Dims() == 1)", Props: []string{"C10"}, Why: "only a rank-1 receiver is stacked along axis 0 by Hstack"},
 	// ---- stacking / repetition (C10) -----------------------------------------------------------------
 	{Rule: "L1", Func: "tensor.(StdEng).StackDense", Site: "$r.denseSimpleStack(", Goal: "%allNoMat", Props: []string{"C10"}, Why: "the block-copy stack reads raw storage of every operand (the accumulator itself is rule LA)"},
 	{Rule: "L1", Func: "tensor.(StdEng).denseRepeat", Site: "fastCopyDenseRepeat(", Decides: []string{"$t.RequiresIterator()"}, Props: []string{"C10"}, Why: "block copies read the operand's raw storage"},
@@ -206,6 +212,17 @@ func LGuards(rc *RC, prop string) {
 				}
 				sites++
 				f := pathG(p)
+				if e.MustStep != "" {
+					found := false
+					for _, st := range p.Steps[:min(hit, len(p.Steps))] {
+						if strings.Contains(st.Head, e.MustStep) {
+							found = true
+						}
+					}
+					if !found {
+						bad = append(bad, fmt.Sprintf("reached with [%s] without a test of the mandatory step %s", strings.Join(p.Guards, " && "), e.MustStep))
+					}
+				}
 				if e.OrStep != "" {
 					found := false
 					for _, st := range p.Steps[:min(hit, len(p.Steps))] {
